@@ -10,5 +10,6 @@ CONSTANTS
   PPInterval = 2
   TestMode = TRUE
   FaultKinds <- AllFaults
+  MaxTimed = 2
   MaxEternal = 2
 CHECK_DEADLOCK FALSE
